@@ -304,7 +304,8 @@ def bad_values(t, rnd):
     if k == "int":
         lo, hi = int_range(t)
         out += [("max+1", hi + 1), ("min-1", lo - 1), ("huge", 2 ** 80), ("float-for-int", 1.5), ("str-for-int", "12"),
-                ("bytes-for-int", b"\x01"), ("list-for-int", [1]), ("bool-for-int", True)]
+                ("bytes-for-int", b"\x01"), ("list-for-int", [1]), ("bool-for-int", True),
+                ("huge-int", 10 ** 5000), ("huge-int", -(10 ** 4400))]      # beyond Python's int -> str conversion limit
     elif k == "bool":
         out += [("int-for-bool", 5), ("str-for-bool", "x")]
     elif k == "real":
@@ -357,7 +358,7 @@ def bad_values(t, rnd):
         if el["k"] == "int":
             lo, hi = int_range(el)
             n = max(1, t["n"]) if t["lk"] == "fixed" else 2
-            out += [("element-out-of-range", [hi + 1] * n), ("element-wrong-type", ["a"] * n)]
+            out += [("element-out-of-range", [hi + 1] * n), ("element-wrong-type", ["a"] * n), ("element-huge", [10 ** 5000] * n)]
     elif k == "struct":
         good = gen_value(t, rnd)
         if t["m"]:
